@@ -27,7 +27,7 @@ RunOf(o) ==
   [law |-> o.law, exact |-> o.exact, hist |-> o.hist,
    alg |-> IF o.hist THEN HistAlg(o) ELSE o.alg, adim |-> IF o.hist THEN HistAdim(o) ELSE o.adim,
    regs |-> o.regs, prog |-> Prog(o.law, o.p, o.q),
-   pairs |-> [x \in DOMAIN prs |-> [i |-> prs[x].i, j |-> prs[x].j, kind |-> prs[x].kind, eq |-> o.pairs[x].eq,
+   pairs |-> [x \in DOMAIN prs |-> [i |-> prs[x].i, j |-> prs[x].j, kind |-> prs[x].kind, eq |-> o.pairs[x].eq, ne |-> o.pairs[x].ne, ner |-> o.pairs[x].ner,
                                       eqr |-> o.pairs[x].eqr, heq |-> o.pairs[x].heq, same |-> o.pairs[x].same,
                                       serr |-> o.pairs[x].serr]],
    herr |-> o.herr, hcond |-> o.hcond, ain |-> o.ain, aoff |-> o.aoff, xs |-> o.xs]
@@ -95,6 +95,8 @@ TStep(W, k) ==
 TPair(W, x) ==
   LET pr == W.pairs[x] a == W.regs[pr.i] b == W.regs[pr.j] IN
   (IsUnit(a) /\ IsUnit(b)) =>
+    \* (Unit defines no __ne__: Python negates __eq__)
+    /\ pr.ne = ~pr.eq /\ pr.ner = ~pr.eqr
     /\ W.exact => (pr.eq = UEq(a, b) /\ pr.eqr = UEq(b, a) /\ (pr.same => SameExpr(a, b)))   \* (1.0*x and x are different sympy expressions)
     \* (one direction only: different expressions may collide - hash(-1) = hash(-2) makes la**2/ta and la**2/ta**2 collide)
     /\ (a.rs = b.rs /\ pr.same) => pr.heq
